@@ -13,7 +13,7 @@ import RV.Driver.Util
     <cand>  = n, then n Ã— (ip x y z vx vy vz r)
     <parts> = n, then n Ã— (id x y z vx vy vz m r lc)
     <given> = k, then k Ã— (p1 p2 gbindex)          (mode given: pre-shuffle list; mode ordered: processing order)
-    <res>   = script salt | zero | merge midflag teoflag G | hs eps mcv eqmflag | halt   (merge with teoflag: output ends with `E <energy_offset>`)
+    <res>   = script salt | zero | merge midflag teoflag G e0 (energy_offset before the search) | hs eps mcv eqmflag | halt   (merge with teoflag: output ends with `E <energy_offset>`)
 -/
 open RV RV.Driver RV.Collision
 open RV.Tree (T Cell)
@@ -83,15 +83,15 @@ def floatTrig : Trig Float := âŸ¨Float.atan2, Float.sin, Float.cos, Float.sqrtâŸ
 structure ResInfo where
   fn : Sim (Part Float) â†’ Coll (GB Float) â†’ Sim (Part Float) Ã— Nat
   /-- merge with track_energy_offset: (massless-guard flag, G) -/
-  eo : Option (Bool Ã— Float) := none
+  eo : Option (Bool Ã— Float Ã— Float) := none
 
 def tRes (t : Float) : Tok ResInfo := do
   match (â† tok) with
   | "script" => do let salt â† tNat; return { fn := scripted salt }
   | "zero" => return { fn := fun s _ => (s, 0) }
   | "merge" => do
-    let mid â† tNat; let teo â† tNat; let g â† tF
-    return { fn := merge (mid != 0) Float.cbrt t, eo := if teo != 0 then some (mid != 0, g) else none }
+    let mid â† tNat; let teo â† tNat; let g â† tF; let e0 â† tF
+    return { fn := merge (mid != 0) Float.cbrt t, eo := if teo != 0 then some (mid != 0, g, e0) else none }
   | "hs" => do
     let eps â† tF; let mcv â† tF; let eqm â† tNat
     return { fn := hardsphere (eqm != 0) floatTrig mcv t (fun _ => eps) }
@@ -139,7 +139,7 @@ def opF : Tok String := do
   let (sf, calls) := processLoop v flagPart res.fn (ks != 0 || hybrid != 0) s0 sh
   let sf := if vb.getD 5 0 != 0 then purgeFlagged (vb.getD 6 0 != 0) sf else sf
   let eo := match res.eo with
-    | some (mid, g) => " E " ++ hx (energyOffsetOf Float.sqrt Float.cbrt g t mid 0.0 calls)
+    | some (mid, g, e0) => " E " ++ hx (energyOffsetOf Float.sqrt Float.cbrt g t mid e0 calls)
     | none => ""
   return fullOut seed' sf calls ++ eo
 
